@@ -97,6 +97,8 @@ def confirm(ctx, module, cid, want_class):
         module = "TraceBuild"
     if want_class.startswith("intern-trace"):
         module = "TraceIntern"
+    if want_class.startswith("pool-trace"):
+        module = "TraceKeyPool"
     rd = os.path.join(vlib.ROOT, "replays", ctx.prop)
     if os.environ.get("VERIF_REPO"):      # development runs against a scratch copy keep their replays apart
         rd = os.path.join(vlib.ROOT, "replays", "_scratch", "%s-%d" % (ctx.prop, os.getpid()))
@@ -189,6 +191,7 @@ def replay(ctx, path):
     if module == "TraceSched":
         verdicts += judge_file(ctx, "TraceBuild", path, "replayb", budget="30s", workers=1)[1]
         verdicts += judge_file(ctx, "TraceIntern", path, "replayi", budget="30s", workers=1)[1]
+        verdicts += judge_file(ctx, "TraceKeyPool", path, "replayk", budget="30s", workers=1)[1]
     counts = COUNTS_AS.get(ctx.prop, {ctx.prop})
     rc = 0
     for (i, p, r) in verdicts:
@@ -852,7 +855,18 @@ def plan_C07(ctx):
     if "is violated" in outi or "Error:" in outi or sti["rc"] != 0:
         raise Broken("design check Intern failed:\n" + vlib.tlc_brief(outi))
     ctx.add_mc(sti)
-    log("design checks CodecBuild (%d configurations, liveness, negative control) and Intern: %d states" % (len(runs), ctx.states))
+    # the key scratch pool: the protocol as it is, and two faulty ones the model must tell apart
+    for proto, want_viol in (("defer", False), ("early", True), ("double", True)):
+        cfgk = ("CONSTANTS\n  p1 = p1\n  p2 = p2\n  p3 = p3\n  Procs = %s\n  Keys = {1, 2}\n  NBufs = %d\n  MaxEntries = 2\n  Protocol = \"%s\"\n"
+                "SPECIFICATION Spec\nINVARIANTS NoCrossTalk%s\nCHECK_DEADLOCK FALSE\n"
+                % ("{p1, p2}" if ctx.quick or want_viol else "{p1, p2, p3}", 2 if ctx.quick or want_viol else 3, proto, "" if want_viol else " Exclusive"))
+        outk, stk = vlib.tlc(ctx.work, "MCKeyPool", cfgk, name="mck_" + proto, workers=4, timeout=1500)
+        viol = "Invariant NoCrossTalk is violated" in outk
+        if viol != want_viol or (not want_viol and ("Error:" in outk or stk["rc"] != 0)):
+            raise Broken("design check KeyPool (%s) did not come out as expected:\n%s" % (proto, vlib.tlc_brief(outk)))
+        if not want_viol:
+            ctx.add_mc(stk)
+    log("design checks CodecBuild (%d configurations, liveness, negative control), Intern and KeyPool: %d states" % (len(runs), ctx.states))
     # 2. schedules replayed on the real library through the yield hooks
     rnd = random.Random(ctx.seed)
     cases = fam_sched.cases(ctx.quick, rnd)
@@ -900,6 +914,10 @@ def plan_C07(ctx):
     verdicts += vi
     for k in ("generated", "distinct"):
         jst[k] += ji[k]
+    vk, jk = vlib.judge(ctx.work, "TraceKeyPool", t1, ctx.env, ctx.open, tag="kpool")
+    verdicts += vk
+    for k in ("generated", "distinct"):
+        jst[k] += jk[k]
     log("hook logs validated against CodecBuild: %d events, %d model steps, %d rejected; pre-repair model rejects %s of a fifth of them" % (jb["events"], jb["distinct"], len(vb), neg_rejected))
     nhooks = 0
     for line in open(t1):
@@ -917,7 +935,7 @@ def plan_C07(ctx):
         extra={"negative_control_model_rejects_pre_repair_protocol": neg_ok, "yield_points_granted": nhooks,
                "hook_logs_validated_against_CodecBuild": jb["events"], "CodecBuild_steps_matched": jb["distinct"],
                "hook_logs_rejected_by_pre_repair_model_in_sample": neg_rejected,
-               "Intern_steps_matched": ji["distinct"] - ji["events"]})
+               "Intern_steps_matched": ji["distinct"] - ji["events"], "KeyPool_steps_matched": jk["distinct"] - jk["events"]})
 
 
 def plan_C06(ctx):
